@@ -6,8 +6,8 @@ package main
 import (
 	"fmt"
 	"os"
-	"sync"
 	"sync/atomic"
+	"time"
 
 	"github.com/33cn/chain33/queue"
 	"verifharness/hlib"
@@ -24,8 +24,16 @@ type result struct {
 	nontriv bool
 }
 
-// runScenario executes sc.Ops if given, else generates ops online with rng.
-func runScenario(sc Scenario, rng *hlib.Rng, maxOps int) result {
+type partial struct {
+	sc   Scenario
+	e    *exec
+	v    *view
+	done []Op
+}
+
+// runScenario executes sc.Ops if given, else generates ops online with rng. The sends
+// still parked are looked at later (finalize), 3 s after the last call when the queue was closed.
+func runScenario(sc Scenario, rng *hlib.Rng, maxOps int) partial {
 	e := newExec(sc)
 	v := &view{status: map[int]int{}, clClose: map[int]bool{}}
 	var done []Op
@@ -50,19 +58,55 @@ func runScenario(sc Scenario, rng *hlib.Rng, maxOps int) result {
 			}
 		}
 	}
-	still := e.finish(v)
+	return partial{sc: sc, e: e, v: v, done: done}
+}
+
+func (p partial) needsWait() bool { return p.v.qClose && len(p.e.pend) > 0 }
+
+func finalize(p partial) result {
+	e, sc := p.e, p.sc
+	still := e.finish(p.v)
 	st := make([]string, len(still))
-	for i, p := range still {
-		st[i] = hlib.N(uint64(p))
+	for i, x := range still {
+		st[i] = hlib.N(uint64(x))
 	}
 	h, l := sc.Hcap, sc.Lcap
 	if h == 0 {
 		h, l = 64, 40960
 	}
 	term := hlib.App("Scripted", hlib.App("mkCaps", n64(h), n64(l), n64(recvCap)), hlib.List(e.terms), hlib.List(st))
-	sc.Ops = done
+	sc.Ops = p.done
 	e.impl = append(e.impl, fmt.Sprintf("still blocked: %v", still))
+	e.cleanup()
 	return result{sc: sc, term: term, impl: e.impl, nontriv: e.nontriv}
+}
+
+// runAll runs the scenarios one after the other. A scenario whose queue was closed while
+// sends were parked is finalized at the end, at least 3 s after its last call; all others
+// at once (their goroutines are released so that the process stays small).
+func runAll(jobs []func() partial) []result {
+	out := make([]result, len(jobs))
+	type late struct {
+		i int
+		p partial
+		t time.Time
+	}
+	var lates []late
+	for i := range jobs {
+		p := jobs[i]()
+		if p.needsWait() {
+			lates = append(lates, late{i, p, time.Now()})
+		} else {
+			out[i] = finalize(p)
+		}
+	}
+	for _, l := range lates {
+		if d := stillWait - time.Since(l.t); d > 0 {
+			time.Sleep(d)
+		}
+		out[l.i] = finalize(l.p)
+	}
+	return out
 }
 
 func main() {
@@ -81,7 +125,7 @@ func main() {
 			runConcurrent(out, hlib.NewRng(uint64(sc.NClients)), 1, &sc)
 			return
 		}
-		r := runScenario(sc, nil, 0)
+		r := runAll([]func() partial{func() partial { return runScenario(sc, nil, 0) }})[0]
 		out.Emit(sc.Kind, r.nontriv, r.term, r.sc, r.impl)
 		return
 	}
@@ -96,14 +140,14 @@ func main() {
 		fmt.Printf("hC36 conc-only: %d cases\n", out.Count())
 		return
 	}
-	var jobs []func() result
+	var jobs []func() partial
 	add := func(sc Scenario, r *hlib.Rng, maxOps int) {
-		jobs = append(jobs, func() result { return runScenario(sc, r, maxOps) })
+		jobs = append(jobs, func() partial { return runScenario(sc, r, maxOps) })
 	}
 	for _, sc := range witnesses(o.Thorough()) {
 		add(sc, nil, 0)
 	}
-	nGuard, nUnres, nUndis := 150, 90, 50
+	nGuard, nUnres, nUndis := 120, 70, 40
 	if o.Thorough() {
 		nGuard, nUnres, nUndis = 1500, 900, 500
 	}
@@ -122,24 +166,12 @@ func main() {
 	mk("unrestricted", nUnres)
 	mk("undisciplined", nUndis)
 
-	// scenarios mostly sleep (200 ms per blocked call): run several side by side
-	results := make([]result, len(jobs))
-	var wg sync.WaitGroup
-	sem := make(chan struct{}, 12)
-	for i := range jobs {
-		wg.Add(1)
-		sem <- struct{}{}
-		go func(i int) {
-			defer wg.Done()
-			defer func() { <-sem }()
-			results[i] = jobs[i]()
-		}(i)
-	}
-	wg.Wait()
+	// one scenario after the other: "at rest" is judged from the states of all goroutines
+	results := runAll(jobs)
 	for _, r := range results {
 		out.Emit(r.sc.Kind, r.nontriv, r.term, r.sc, r.impl)
 	}
-	nconc := 40
+	nconc := 30
 	if o.Thorough() {
 		nconc = 400
 	}
